@@ -13,7 +13,7 @@ SPECS = {
             # scalar core of the allocation, one level: vl, cl = V_l, C_l; S = sum_k sqrt(V_k C_k)
             {"py": "compute_mc_paths_giles", "coq": "giles_alloc_core", "pyargs": ["rmse", "vl", "cl"],
              "args": [("rmse", "R"), ("vl", "R"), ("cl", "R"), ("S", "R")], "ret": "R",
-             "giles_core": True, "elementwise": {"arrays": ["cl_zerocost"], "uninit": "0"}},
+             "giles_core": True, "on_raise": "(IZR (-1))", "elementwise": {"arrays": ["cl_zerocost"], "uninit": "0"}},
         ],
     },
 }
